@@ -602,6 +602,18 @@ async def run_condition_wait(col, cfg, ctx="plain") -> None:  # noqa: ANN001
             cond = anyio.Condition()
             await cond.acquire()
             reached = []
+            mid: list = []
+
+            def sample() -> None:
+                # what another task would see while the cancelled caller is suspended (if
+                # it suspends at all): the lock given up, a waiter registered
+                st_ = cond.statistics()
+                if not cond.locked():
+                    mid.append("lock released")
+                elif st_.tasks_waiting:
+                    mid.append("a waiter was registered")
+
+            asyncio.get_running_loop().call_soon(sample)
             with _Ctx(ctx) as s:
                 await cond.wait()
                 reached.append(1)
@@ -620,6 +632,9 @@ async def run_condition_wait(col, cfg, ctx="plain") -> None:  # noqa: ANN001
             if st.tasks_waiting:
                 viol.append(("effect-performed-in-cancelled-scope",
                              {"cell": case["cell"], "effect": "a waiter was registered"}))  # fmt: skip
+            elif mid and not viol:
+                viol.append(("effect-visible-to-other-tasks-before-the-cancellation-was-raised",
+                             {"cell": case["cell"], "effect": mid[0]}))  # fmt: skip
     except TimeoutError:
         viol.append(("operation-did-not-complete", {"cell": case["cell"]}))
     except BaseException as e:  # noqa: BLE001
